@@ -254,6 +254,9 @@ func init() {
 
 func TestC14_Cycles(t *testing.T) {
 	os.Setenv("VERIF_TESTNAME", "TestC14_Cycles")
+	if _, err := getSystem("deletion", 3, 2); err != nil {
+		t.Fatalf("harness: %v", err)
+	}
 	RunRapid(t, Check[c14Case]{Prop: "C14", Test: "TestC14_Cycles", Gen: genC14, Run: runC14})
 }
 
